@@ -596,7 +596,7 @@ func init() {
 	register(&Prop{
 		ID: "C04", Level: "model_checking",
 		Technique:   "stateless model checking of the real top-level client over a simulated cluster: every fault script of bounded length x cache warm/cold x event position (before / concurrent, schedules up to a deviation bound), with the cluster's executor as server-side observer",
-		Rule:        "fault scripts = every sequence of <=2 (thorough: sampled 3) events from a 19-event menu {move, split, merge, transient NSRE / RegionMoved / RegionOpening / TooBusy / CallQueueTooBig / Throttling / RetryImmediately / PleaseHold bursts, server crash with reassignment, server-stopped and server-aborted exceptions, connection reset, meta move, meta NSRE, ZooKeeper errors; on tier W also a server that hangs (accepts requests, never answers) with its regions reassigned} x {1,2} requests (get/put) x cache warm or cold x events applied before the requests (default schedule) or concurrently (all schedules with <=1 deviation, thorough <=2); plus application exception and dropped table. Oracle: every request succeeds with its own value and was executed by a server hosting the owning region at that time (the executor refuses stale region names); fatal errors are returned unchanged and not re-executed. Non-trivial = non-default schedule or non-empty script. Additionally every single event of the menu fires at EVERY scheduling step of a thread running client code while two requests are in progress, cache cold and warm, two servers and one shared connection, on tier L (<=1 further deviation, thorough 2 for connection reset / crash / move on a warm cache) and on tier W (vrt.GoInterrupt: the event's thread is created waiting for that step and is the default choice there, so its position is a parameter of the unit and costs no deviation). Batches: two calls, the first with its own context cancelled at EVERY scheduling step of SendBatch, regions answering not-serving once or twice or a dropped connection: the call whose context stays alive must succeed.",
+		Rule:        "fault scripts = every sequence of <=2 (thorough: sampled 3) events from a 22-event menu {lookups refused by hbase:meta or ZooKeeper fifteen times in a row (longer than the region lookup timeout), move, split, merge, transient NSRE / RegionMoved / RegionOpening / TooBusy / CallQueueTooBig / Throttling / RetryImmediately / PleaseHold bursts, server crash with reassignment, server-stopped and server-aborted exceptions, connection reset, meta move, meta NSRE, ZooKeeper errors; on tier W also a server that hangs (accepts requests, never answers) with its regions reassigned} x {1,2} requests (get/put) x cache warm or cold x events applied before the requests (default schedule) or concurrently (all schedules with <=1 deviation, thorough <=2); plus application exception and dropped table. Oracle: every request succeeds with its own value and was executed by a server hosting the owning region at that time (the executor refuses stale region names); fatal errors are returned unchanged and not re-executed. Non-trivial = non-default schedule or non-empty script. Additionally every single event of the menu fires at EVERY scheduling step of a thread running client code while two requests are in progress, cache cold and warm, two servers and one shared connection, on tier L (<=1 further deviation, thorough 2 for connection reset / crash / move on a warm cache) and on tier W (vrt.GoInterrupt: the event's thread is created waiting for that step and is the default choice there, so its position is a parameter of the unit and costs no deviation). Batches: two calls, the first with its own context cancelled at EVERY scheduling step of SendBatch, regions answering not-serving once or twice or a dropped connection: the call whose context stays alive must succeed.",
 		Assumptions: []string{"tier L: region clients are simulated (their internals are C02/C03/C18's subject); the simulated cluster only shows behaviour a real HBase cluster can show", "after the script the cluster is stable"},
 		Quick:       150 * time.Second, Thorough: 25 * time.Minute,
 		Units: c04Units,
